@@ -220,12 +220,12 @@ class MemEngine(object):
         n = min(n, 3 * self.c.buffer_size)
         if addr % 4 == 0 and n % 4 == 0:
             self.w.probe("fill_aligned")
-            word = t.draw(1 << 32)
+            word = t.edge(1 << 32)
             new = pystruct.pack("<I", word) * (n // 4)
             val = word
         else:
             self.w.probe("fill_unaligned")
-            val = t.draw(256)
+            val = t.edge(256)
             new = bytes([val]) * n
         name = "fill(%#x,%#x,%d,%r,p=%d)" % (addr, val, n, xy, p)
         self.run_op(name, (xy, p, addr, new), self.c.mc.fill, addr, val, n,
